@@ -244,7 +244,7 @@ def conclude(pid, tier, seed, insts, wall, workdir, extra):
         q = i.query
         path = os.path.join("replays", "%s-%s-%d.json" % (pid, i.tag, n))
         rep = {"property": pid, "harness": i.hname, "function": i.h.get("func", i.hname),
-               "cfg": i.cfg, "defines": i.defs, "flags": i.flags,
+               "cfg": i.cfg, "defines": i.defs, "flags": i.flags, "tus": i.tus,
                "failed": q.failed, "repo_head": repo_head()}
         try:
             rep["native"] = getattr(q, "hang_replay", None) or replay_mod.native_replay(i, q, workdir)
